@@ -79,6 +79,16 @@ func (g *exprGen) expr(depth int) gexpr {
 		return gexpr{"-" + paren(e), "(ENeg " + e.coq + ")"}
 	case 5, 6, 7:
 		op := hx.Pick(g.r, hx.SortedKeys(corrOps))
+		if op == "op:^" {
+			// whole powers between -5 and 5 only: larger ones are computed exactly (and at length) by both sides,
+			// non-integral ones are not modelled
+			a := g.expr(depth - 1)
+			p := g.numLit(hx.Pick(g.r, []string{"0", "1", "2", "3", "5"}))
+			if g.r.Chance(1, 4) {
+				p = gexpr{"-" + paren(p), "(ENeg " + p.coq + ")"}
+			}
+			return g.bin(op, a, p)
+		}
 		a, b := g.expr(depth-1), g.expr(depth-1)
 		return gexpr{paren(a) + " " + strings.TrimPrefix(op, "op:") + " " + paren(b), "(EBin " + corrOps[op] + " " + a.coq + " " + b.coq + ")"}
 	default:
